@@ -87,6 +87,7 @@ class Real:
         else:
             root = T.named("root")
         self.classes = [root]
+        self.named_root = case["root"] != "using"
         self.insts = []
         self.held = {}          # view label -> the view OBJECT fetched once and kept by the caller
 
@@ -113,6 +114,28 @@ class Real:
 
     def snapshot(self):
         return [[v, _canon_items(self.view(v).items())] for v in self.views()]
+
+    def materialised(self):
+        """WHICH classes of the case have a frame in the `map` of the Properties object they resolve to.
+        This is internal state of the library, read ONLY for the comparison of the materialisation order with the
+        mechanism model (lean/Flatland/C17Frames.lean); the oracle never looks at it.  Nothing here goes through
+        `Properties.__get__`, `_frames` or `_base_frame`, so the observation itself materialises nothing:
+        the descriptor is found in the class `__dict__`s along the MRO and `cls in descriptor.map` is a plain
+        WeakKeyDictionary membership test.  With root="named" class 0 stands for `Element` (the owner) in the
+        models but is an ordinary subclass in the code: it is left out."""
+        from flatland.schema.properties import Properties
+        out = []
+        for i, c in enumerate(self.classes):
+            if i == 0 and self.named_root:
+                continue
+            desc = None
+            for k in c.__mro__:
+                desc = k.__dict__.get("properties")
+                if desc is not None:
+                    break
+            if isinstance(desc, Properties) and c in desc.map:
+                out.append(i)
+        return out
 
     def do(self, cmd):
         """returns ("ok", raw result) or ("err", exception class name)"""
@@ -840,7 +863,14 @@ class C17(Property):
         "refine_step", "Inv_step", "refine_run", "read_is_overlay_all",
         "c17_histories_from", "c17_histories_partial", "c17_results_partial",
         "histGuard_rejects_witnesses", "witnesses_trip_own_guard",
+    )] + ["Flatland.C17.Frames.Proofs." + t for t in (
+        # the frame MECHANISM of properties.py (lean/Flatland/C17Frames.lean) against model A
+        "pull_frames", "pull_state", "read_cutF", "pwalk_sim", "Sim_mat", "Sim_pull", "Sim_init",
+        "classRead_refines", "lazy_is_unobservable_reads",
+        "pull_inv", "baseFrame_inv", "writeRef_inv", "writeBase_inv",
+        "baseFrame_alias_breaks", "aliasInitial_fails",
     )]
+    extra_proof_modules = ["Proofs.C17Frames"]
     level_text = "proof (partial: sentence 1 over histories is refuted in full and proved for all histories outside the three open findings)"
     level_note = ("PROVED for every store/history of the model: non-interference (no_upward_leak, step_untouched, "
                   "no_upward_leak_history), reading = overlay of the frames of the chain (read_is_overlay_*, read_is_overlay_all), "
@@ -857,17 +887,35 @@ class C17(Property):
                   "method call through any class / attached-instance view returns what a dict holding the reference mapping "
                   "returns.  histGuard_rejects_witnesses / witnesses_trip_own_guard: each of the three negation witnesses is "
                   "rejected by its own guard component only.  The run-time check stepAgrees of Run/C17.lean is now redundant "
-                  "with refine_step (kept as a cross-check of the compiled model)")
+                  "with refine_step (kept as a cross-check of the compiled model).  "
+                  "FRAME MECHANISM (C17Frames.lean: Properties.map filled lazily — _frames as a generator pulled by its "
+                  "consumer, _base_frame, initial_set as a cell, slots vs Properties objects): PROVED — the read path refines "
+                  "model A: classRead_refines (every read-only method through a class view, computed over exactly the frames "
+                  "its consumer pulls, returns model A's result, and the simulation relation Sim to the SAME model-A state "
+                  "survives the materialisation it may perform; pull_frames, pull_state, read_cutF, pwalk_sim, Sim_mat), "
+                  "lazy_is_unobservable_reads (any sequence of such reads in any order), Sim_init; invariants NoAlias / "
+                  "InitialImmutable kept by read path, _base_frame and the frame mutation (pull_inv, baseFrame_inv, "
+                  "writeRef_inv, writeBase_inv); the aliasing counter-model (seeded C17-base-frame-alias-initial) breaks the "
+                  "invariant and the correspondence on a concrete history (baseFrame_alias_breaks, aliasInitial_fails).  NOT "
+                  "proved: the step refinement for WRITES, instance views and class-creating commands of the mechanism model "
+                  "(frames_step_refines / frames_run_refines in full) — checked per case instead: the runner executes the "
+                  "mechanism model next to model A on every case (results and every view; spec_agrees=false on a difference) "
+                  "and its materialised-frame set after every command is compared with the keys of the real Properties.map")
     technique = "Lean 4 model + invariants + refinement to a layered-store specification; differential testing against /repo"
     trusted_base = [
         "Python's class machinery (type(), __mro__, attribute lookup of data descriptors, instance __dict__) is the "
         "modelled boundary: the model takes the MRO of a class as given and resolves `cls.properties` to the first "
         "class of the MRO that has a Properties object in its __dict__",
         "WeakKeyDictionary: the harness keeps every class alive, so no frame is dropped; `setdefault(cls, initial_set)` "
-        "is modelled as 'the frame of an owning class IS the initial_set dict'",
+        "is modelled as 'the frame of an owning class IS the initial_set dict' in model A; the mechanism model "
+        "(C17Frames.lean) has the map, its lazy filling and the copy of initial_set explicitly",
         "a detached instance's mapping is a CPython dict (modelled with dict semantics, not proved against C)",
     ]
     assumptions = [
+        "mechanism model: the set of classes that have a frame in Properties.map is read from the real objects (internal "
+        "state; descriptor found in the class __dict__s along the MRO, `cls in descriptor.map`) ONLY for the comparison of "
+        "the materialisation order; the oracle stays on public behaviour.  With root='named' class 0 stands for Element "
+        "(the owner) in the models and is left out of that comparison",
         "keys are str, values None/int/str (no key/value whose == or hash is user-defined; the Deleted symbol is never stored by the caller)",
         "`Cls.properties = x` (rebinding the class attribute by hand) is not an operation of the property",
         "a Properties object handed to several classes (using_shared) is modelled as one descriptor per class with the "
@@ -886,7 +934,8 @@ class C17(Property):
             "in 3 of 4 histories the caller also HOLDS view objects (fetched once, before most classes were first written "
             "through) and 15-50% of the later commands and all snapshots go through the held objects; keys from an alphabet of 1-10 (so collisions and re-use of deleted keys are the norm); after every command every "
             "view is read with items() and compared with the Lean model (order included) and with the reference overlay "
-            "(plus get/in/[]/==/!=/bool/copy/keys/values coherence); non-trivial = at least 3 mutating ops of 2 kinds "
+            "(plus get/in/[]/==/!=/bool/copy/keys/values coherence); after every command (before the observer reads) "
+            "the set of classes with a materialised frame in Properties.map is compared with the mechanism model's; non-trivial = at least 3 mutating ops of 2 kinds "
             "through 2 views and a tombstone somewhere; distinct = distinct canonical case JSON")
     exhaustive_note = ("every history of length <= 2 (quick) / <= 3 (thorough) over 6 mutating ops x 6 views "
                        "(R <- A <- B, sibling A2, two instances of B), one key")
@@ -1002,25 +1051,28 @@ class C17(Property):
             # hides what happens when a frame is first created by a WRITE (seeded C17-base-frame-alias-initial)
             real = Real(case)
             results = []
+            mats = []
             for cmd in case["cmds"]:
                 res = real.do(cmd)
                 results.append(_canon_result(res))
+                mats.append(real.materialised())
                 if cmd["t"] != "op" and res[0] == "err":
-                    return {"_lazy": True, "results": results, "final": None}
-            return {"_lazy": True, "results": results, "final": real.snapshot()}
+                    return {"_lazy": True, "results": results, "mats": mats, "final": None}
+            return {"_lazy": True, "results": results, "mats": mats, "final": real.snapshot()}
         real = Real(case)
         snap = real.snapshot()
         start = snap
         steps = []
         for cmd in case["cmds"]:
             res = real.do(cmd)
+            mat = real.materialised()        # after the command, BEFORE the observer reads every view
             if cmd["t"] != "op" and res[0] == "err":
-                steps.append({"r": _canon_result(res), "d": []})
+                steps.append({"r": _canon_result(res), "d": [], "m": mat})
                 break                    # the store the later commands refer to was not built
             new = real.snapshot()
             old = {tuple(v): items for v, items in snap}
             delta = [[v, items] for v, items in new if tuple(v) not in old or old[tuple(v)] != items]
-            steps.append({"r": _canon_result(res), "d": delta})
+            steps.append({"r": _canon_result(res), "d": delta, "m": mat})
             snap = new
         return {"start": start, "steps": steps}
 
@@ -1035,6 +1087,12 @@ class C17(Property):
         results = [s_["r"] for s_ in steps]
         if canon(results) != canon(impl_obs["results"]):
             return "lazy results: impl=%s model=%s" % (canon(impl_obs["results"])[:300], canon(results)[:300])
+        # materialisation order: after every command, the classes that have a frame in `Properties.map`
+        mats = [s_.get("m") for s_ in steps][:len(impl_obs["mats"])]
+        if canon(mats) != canon(impl_obs["mats"]):
+            at = [i for i, (a, b) in enumerate(zip(impl_obs["mats"], mats)) if a != b]
+            return "lazy materialised frames differ at steps %s: impl=%s model=%s" % (
+                at[:5], canon(impl_obs["mats"])[:300], canon(mats)[:300])
         if impl_obs["final"] is not None:
             cur = {}
             order = []
@@ -1085,6 +1143,19 @@ class C17(Property):
         ncls = 1 + sum(1 for c in cmds if c["t"] in CLASS_CMDS)
         ninst = sum(1 for c in cmds if c["t"] in INST_CMDS)
         t += ["classes=%d" % ncls, "instances=%d" % ninst]
+        # materialisation of class frames as observed on the real objects (compared with the mechanism model)
+        mats = obs.get("mats") if obs.get("_lazy") else [s.get("m", []) for s in obs.get("steps", [])]
+        prev = []
+        for cmd, m in zip(cmds, mats or []):
+            new = [x for x in m if x not in prev]
+            if new and cmd["t"] == "op":
+                kind = "write" if cmd["op"] in WRITE_OPS else "read"
+                for x in new:
+                    t.append("frame-materialised-by=%s%s" % (kind, "" if cmd["view"] == ["c", x] else "-through-other-view"))
+            if cmd["t"] == "op" and cmd["op"] in READ_OPS and cmd["op"] != "popitem" and not new \
+                    and len(m) < ncls:
+                t.append("read-materialised-nothing")
+            prev = m
         for c in cmds:
             if c["t"] == "op":
                 t.append("op=%s@%s" % (c["op"], c["view"][0]))
